@@ -110,11 +110,19 @@ VARIANTS = [
     V("all-NaN detector counts filled members", ("C20",), "R-COLLIDE", "aggregate_flox.py", '            allnangroups &= nvalid == 0\n', '            allnangroups &= nvalid > 0\n', must_mention="_nan_grouped_op"),
     V("reduceat without dtype", ("C20",), "R-CASTORDER", "aggregate_flox.py", '        op(array, inv_idx, axis=axis, dtype=dtype, out=out, **kwargs)', '        op(array, inv_idx, axis=axis, out=out, **kwargs)', must_mention="_np_grouped_op"),
     V("numbagg casts input to requested dtype", ("C20",), "R-CASTORDER", "aggregate_numbagg.py", '    func_ = getattr(numbagg.grouped, f"group_{func}")\n', '    if dtype is not None:\n        array = array.astype(dtype)\n    func_ = getattr(numbagg.grouped, f"group_{func}")\n', must_mention="_numbagg_wrapper"),
+    # ---------------- wiring rules
+    V("sort pinned in the eager path", ("C16",), "R-PASSTHROUGH[sort]", "core.py", '        engine=engine,\n        sort=sort,\n        reindex=bool(reindex.blockwise),', '        engine=engine,\n        sort=True,\n        reindex=bool(reindex.blockwise),', must_mention="_reduce_blockwise"),
+    V("engine not forwarded by chunk_argreduce", ("C01",), "R-PASSTHROUGH[engine]", "core.py", '        dtype=dtype,\n        engine=engine,\n        sort=sort,\n        user_dtype=user_dtype,\n    )\n    if not all(isnull(results["groups"])):', '        dtype=dtype,\n        sort=sort,\n        user_dtype=user_dtype,\n    )\n    if not all(isnull(results["groups"])):', must_mention="chunk_argreduce"),
+    V("counter stripped under a different condition", ("C05",), "R-COUNTER", "core.py", '    if min_count > 0:\n        counts = squeezed["intermediates"][-1]', '    if min_count >= 0:\n        counts = squeezed["intermediates"][-1]', must_mention="_finalize_results"),
+    V("counter recognised by another name", ("C05",), "R-COUNTER", "core.py", '        if agg.chunk[-1] == "nanlen":\n            slicer = slice(None, -1)', '        if agg.chunk[-1] == "len":\n            slicer = slice(None, -1)', must_mention="_grouped_combine"),
+    V("block-local arg index returned", ("C06",), "R-GLOBALIDX", "core.py", '        results["intermediates"][1] = idx[newidx]', '        results["intermediates"][1] = newidx[-1]', must_mention="chunk_argreduce"),
+    V("global index chunked along the wrong axis", ("C06",), "R-GLOBALIDX", "aggregations.py", 'chunks=array.chunks[axis], dtype=np.intp)', 'chunks=array.chunks[-1], dtype=np.intp)', must_mention="argreduce_preprocess"),
     # ---------------- R-LAZY (C12)
     V("labels coerced with np.asarray", ("C12",), "R-LAZY", "core.py", '    assert len(bys) == 1\n    (by_,) = bys\n\n    if axis is None:', '    assert len(bys) == 1\n    (by_,) = bys\n    by_ = np.asarray(by_)\n\n    if axis is None:', must_mention="groupby_reduce"),
     V("data-dependent branch on labels", ("C12",), "R-LAZY", "core.py", '    if axis is None:\n        axis_ = tuple(array.ndim + np.arange(-by_.ndim, 0))', '    if (by_ == -1).any():\n        pass\n    if axis is None:\n        axis_ = tuple(array.ndim + np.arange(-by_.ndim, 0))', must_mention="groupby_reduce"),
     V("planner guard loses 'not any_by_dask'", ("C12",), "R-LAZY", "core.py", '        if (not any_by_dask and method is None) or method == "cohorts":', '        if method is None or method == "cohorts":', must_mention="find_group_cohorts"),
     V("blockwise rechunk with dask labels", ("C12",), "R-LAZY", "core.py", 'and by_.ndim == 1 and not any_by_dask:', 'and by_.ndim == 1:', must_mention="rechunk_for_blockwise"),
+    V("all-fill result built with np.full", ("C12",), "R-LAZY", "core.py", '            reindexed = np.full_like(array, fill_value, shape=shape)', '            reindexed = np.full(shape, fill_value, dtype=array.dtype)', must_mention="reindex_"),
     V("twin: guard moved into a local flag", ("C12",), "", "core.py", '        if (not any_by_dask and method is None) or method == "cohorts":', '        plan_from_labels = (not any_by_dask and method is None) or method == "cohorts"\n        if plan_from_labels:', expect="silent"),
     # ---------------- C19 rules
     V("TypeError raised on an API path", ("C19",), "R-RAISE", "core.py", '        raise ValueError(f"Cannot reindex to a multidimensional array: {to}")', '        raise TypeError(f"Cannot reindex to a multidimensional array: {to}")', must_mention="reindex_"),
